@@ -18,6 +18,12 @@ CLAIMED = {
          "All reachable shapes x all queries of the bounded universe."),
  "C10": ("model_checking", "TLC: children start / remove_children / recursive retain (all keep-sets, call log) vs abstract definitions; rows replayed on the code",
          "All reachable shapes x all selectors x all predicates (as keep-sets) of the bounded universe."),
+ "C11": ("model_checking", "TLC: view location algebra (find/left/right incl. virtual positions) vs 'entries under the prefix' on every state and root; complete sub-view graph replayed on TrieView and TrieViewMut",
+         "For every reachable shape and every q the whole graph of sub-views below view_at(q) is described through prefix/value/iter/left/right (and has_left/has_right/split for mutable views) and compared."),
+ "C12": ("model_checking", "TLC: find / find_exact / find_lpm from every view location for every query vs view-relative abstract definitions; rows replayed on both view kinds",
+         "All (shape, view root, query, search kind) combinations of the bounded universe, including queries covering or beside the view and virtual roots."),
+ "C13": ("model_checking", "TLC: each mutable traversal = read-only twin and write-through changes exactly the yielded entries; replayed with all &mut held simultaneously",
+         "Write through the k-th reference only (every k) or through all, for every mutable traversal of maps and mutable views."),
  "C15": ("model_checking", "TLC invariants WF / IsTree / canonical shape; tree observed through views compared after every replayed transition",
          "Canonical shape is defined declaratively from the key set; every transition's resulting tree is compared with the code's view walk."),
  "C16": ("model_checking", "TLC invariant Partition + step property 'arena grows only when no slot is free'; hook snapshot compared after every replayed transition",
